@@ -138,6 +138,7 @@ func C14(run *core.Run) {
 	}
 	defer func() { mem.st.Close() }()
 
+	lastCount := 0 // statements the last armed batch really executed
 	runCase := func(c txCase, db *txDB, idx int) (*txDB, bool) {
 		tr := tv.Trace{Name: fmt.Sprintf("case hist=%v batch=%v failAt=%d file=%v", c.Hist, c.Batch, c.FailAt, db.file)}
 		tr.Lines = append(tr.Lines, map[string]any{"op": "reset"})
@@ -200,6 +201,7 @@ func C14(run *core.Run) {
 		ierr := db.st.Insert(batchOf(c.Batch))
 		count, log := db.inj.Disarm()
 		fired := db.inj.Fired
+		lastCount = count
 		run.Add("fault_runs", 1)
 		distinct.Add(fmt.Sprintf("%v|%s", c.Batch, strings.Join(log, ",")) + fmt.Sprint(fired))
 		if c.FailAt > 0 && !fired || c.FailAt == 0 && count != c.Stmts {
@@ -244,7 +246,9 @@ func C14(run *core.Run) {
 			if !ok {
 				return db, false
 			}
-			if abs.KeyOf(post) != abs.KeyOf(c.Post) {
+			// (a fault index beyond the real statement sequence never fires: the batch simply succeeds,
+			// c.Post describes the failed batch and does not apply; the trace line is still judged by TLC)
+			if c.FailAt == 0 && abs.KeyOf(post) != abs.KeyOf(c.Post) {
 				run.Violate("c14:post-state differs from SqlTx", fmt.Sprintf("history %v batch %v lists %v, SqlTx says %v", c.Hist, c.Batch, post, c.Post), map[string]any{"case": c})
 				return db, false
 			}
@@ -295,6 +299,29 @@ func C14(run *core.Run) {
 	}
 	for i := 0; i < nMem; i++ {
 		mem, _ = runCase(cases[pick[i]], mem, i)
+	}
+	// When the real statement sequence is not the model's (a refactored insert path), the model's fault
+	// indices do not cover it: enumerate a fault at every statement the batch really executes.
+	if drift > 0 {
+		seen := map[string]bool{}
+		n := 0
+		for _, c := range cases {
+			k := fmt.Sprint(c.Hist, c.Batch)
+			if c.FailAt != 0 || seen[k] || n >= 16 {
+				continue
+			}
+			seen[k] = true
+			n++
+			var ok bool
+			if mem, ok = runCase(c, mem, 100000+n); !ok {
+				continue
+			}
+			realStmts := lastCount
+			for f := 1; f <= realStmts; f++ {
+				mem, _ = runCase(txCase{Batch: c.Batch, FailAt: f, Stmts: realStmts, Pre: c.Pre, Post: c.Pre, Hist: c.Hist}, mem, 100000+n*100+f)
+				run.Add("adaptive_fault_runs", 1)
+			}
+		}
 	}
 	fdb, err := openTxDB("file:"+filepath.Join(dir, "c14.sqlite"), true)
 	if err != nil {
